@@ -1,7 +1,7 @@
 //! C17 — parsers of untrusted text and bytes never crash; parse∘format = id.
 
 use crate::common::{Raw, Text};
-use crate::{cachefile, fuzzrun, hexaddr, maddr, ports, record, registry, walletkey};
+use crate::{cachefile, exhaustive, fuzzrun, hexaddr, maddr, ports, record, registry, walletkey};
 use vh_core::{Ctx, Failure, Report, RunCfg};
 
 pub const FUZZ_TARGETS: &[&str] = &["parsers_hex", "parsers_text", "parsers_files", "parsers_record"];
@@ -136,6 +136,7 @@ each case makes several parser calls."
         record::strategy, record::check
     );
 
+    exhaustive::run(&mut rep);
     fuzzrun::replay_regressions(&mut rep);
     if rep.tier() == vh_core::Tier::Thorough {
         fuzzrun::campaigns(&mut rep);
